@@ -376,7 +376,20 @@ def theorem_names(cid):
     return re.findall(r"^\s*Theorem\s+([A-Za-z0-9_']+)", src, flags=re.M)
 
 
+def gen_poisoned():
+    """common.regenerate() replaces coq/gen/IsoGen.v by a non-compiling file when gen_iso.py aborts"""
+    try:
+        txt = open(os.path.join(C.COQ, "gen", "IsoGen.v")).read()
+    except OSError:
+        return "coq/gen/IsoGen.v is missing"
+    return txt[:1800] if "generator_failed" in txt else ""
+
+
 def broken_kind(build_err, props):
+    if props.get("poison"):
+        return ("broken proof obligation: the source-to-Coq translator harness/gen_iso.py ABORTED on isoparser.py "
+                "(construct outside its accepted subset, or a pinned hand-modelled part changed); the gen_* = model "
+                "obligations do not check")
     if build_err is not None:
         return ("broken proof obligation: the source-to-Coq translator aborted or the build failed (%s); "
                 "the gen_* = model obligations were not re-checked" % build_err.what)
@@ -394,9 +407,31 @@ def model_tie(build_err, props):
                "Python-ast translator harness/gen_iso.py on this run; coq/iso/IsoGenThm.v proves every translated "
                "function equal to the hand model for all inputs; the differential run below additionally compares the "
                "running implementation with the extracted model and spec",
-        "translator_aborted": build_err is not None,
-        "translator_message": (build_err.log[-400:] if build_err is not None else ""),
+        "translator_aborted": bool(props.get("poison")) or build_err is not None,
+        "translator_message": (props.get("poison", "")[-600:] or (build_err.log[-400:] if build_err is not None else "")),
         "gen_obligations": gen,
         "gen_obligations_discharged": [t for t in gen if t in props["theorems"][:props["discharged"]]],
         "hand_modelled_and_pinned_by_ast_hash": ["_takes_ascii", "isoparser.__init__", "module tail"],
     }
+
+
+def apply_poison(props):
+    """If the translator aborted, common.regenerate() poisoned coq/gen/IsoGen.v; the stale IsoGen.vo / IsoGenThm.vo of
+    the previous (clean) build may still be on disk and let props/<cid>.v compile.  The gen_* obligations were NOT
+    re-checked against this source: count them as not discharged."""
+    msg = gen_poisoned()
+    if not msg:
+        return props
+    p = dict(props)
+    core = [t for t in p["theorems"] if "_gen_" not in t]
+    p["discharged"] = min(p["discharged"], len(core))
+    p["ok"] = False
+    p["poison"] = msg
+    p["log"] = "TRANSLATOR ABORTED (coq/gen/IsoGen.v poisoned):\n" + msg + "\n" + p.get("log", "")
+    for ext in (".vo", ".vos", ".vok", ".glob"):      # do not leave a stale compiled copy of a file that is not there
+        for stem in ("gen/IsoGen", "iso/IsoGenThm", "iso/IsoGenCor"):
+            try:
+                os.remove(os.path.join(C.COQ, stem + ext))
+            except OSError:
+                pass
+    return p
